@@ -38,7 +38,7 @@ def run(repo: Repo, tier: str, res: CheckResult, seed: int = 0) -> None:
     # hidden memos in the layout stage and the generators (shared rule family of C11): a sieve / crown cached under a key
     # that compares the user's default by == serves `0` with the sieve of `False`
     from .. import memo
-    memo.check(repo, res, "C03", only=("/morphing/name_layout/", "/morphing/model/"), floors=False)
+    memo.check(repo, res, "C03", only=("/morphing/name_layout/", "/morphing/model/", "/provider/overlay_schema"), floors=False)
     res.assumptions = list(ASSUMPTIONS)
 
 
